@@ -184,7 +184,13 @@ def make_extending_db(ctx):
     specs = [macrospec.MacroSpec('provide', '', make_after_parsing_state_delta=after_provide)] + \
         [make_spec(macrospec.MacroSpec, n, a) for n, a in ctx['macros']]
     base = macrospec.LatexContextDb()
-    base.add_context_category('base', macros=[macrospec.MacroSpec('textbf', '{')],
+    envs = []
+    if ctx.get('bodydelta'):
+        # an environment whose body is parsed with an extended context: ONE long-lived delta object held by the spec (definitions
+        # plus a fallback for unknown macros inside the body), applied at every use of the environment
+        envs = [macrospec.EnvironmentSpec('defs', body_parsing_state_delta=macrospec.ParsingStateDeltaExtendLatexContextDb(
+            extend_latex_context=dict(macros=[macrospec.MacroSpec('item', '[')], unknown_macro_spec=macrospec.MacroSpec('', '{'))))]
+    base.add_context_category('base', macros=[macrospec.MacroSpec('textbf', '{')], environments=envs,
                               specials=[make_spec(macrospec.SpecialsSpec, n, a) for n, a in ctx['specials']])
     if ctx.get('um') is not None:
         base.set_unknown_macro_spec(make_spec(macrospec.MacroSpec, '', ctx['um']))
